@@ -3,6 +3,8 @@
 From Coq Require Import List NArith Bool.
 From PG Require Import Model.VS Model.Term Model.Solver Model.Registry Proofs.VSLaws Proofs.SolverSem
   Proofs.SolverStore.
+From Coq Require Import ZArith.
+From PG Require Import Model.Instances Proofs.SolverExamples.
 
 Section C02.
   Context {VS Vr : Type} (O : VSOps VS Vr) (L : VSLawful O) (veqb : Vr -> Vr -> bool).
@@ -34,6 +36,15 @@ Section C02.
       forall sol : assignment, Solution O reg r rv sol -> False.
   Proof. intros Hw Hv fuel tr t st log k Hwb E sol. exact (resolve_nosolution_sound Hw Hv fuel tr t st log k Hwb E sol). Qed.
 End C02.
+
+(* non-vacuity: a recorded run over Range<Z> meets all hypotheses and ends in NoSolution (Proofs/SolverExamples.v) *)
+Example nosolution_sound_nonvacuous :
+  (exists t st log, resolve zvs Z.eqb 100 0%N 2%Z tr1 = (ONoSolution t, st, log, 8))
+  /\ forall a, ~ Solution zvs reg1 0%N 2%Z a.
+Proof.
+  split; [exact run1_is_nosolution|]. destruct run1_is_nosolution as (t & st & log & E).
+  exact (resolve_nosolution_sound zvs zlaw Z.eqb reg1 0%N 2%Z reg1_wf zeqb_eq 100 tr1 t st log 8 tr1_wb E).
+Qed.
 
 Print Assumptions resolve_nosolution_sound.
 Print Assumptions terminal_refutes.
